@@ -154,6 +154,19 @@ def tri(*vals) -> Optional[bool]:
     return None
 
 
+def tri_lazy(*thunks) -> Optional[bool]:
+    """three-valued `and` with short-circuit: the first operand that is not True (None = undecided, False = definitely not)
+    is the result; later operands are not evaluated (they may rely on the earlier ones having held)."""
+    for th in thunks:
+        try:
+            v = th()
+        except (TypeError, IndexError, KeyError, AttributeError):
+            return None
+        if v is not True:
+            return False if v is False else None
+    return True
+
+
 def why_not(got: Optional[Term], want: Term) -> str:
     if got is None:
         return "missing"
